@@ -18,6 +18,7 @@ class Report:
         self.artefacts = []       # sat models that did not reproduce under a stated idealisation
         self.harness_errors = []
         self.inconclusive = []
+        self.unreproduced = []
         self.notes = []
         self.assumptions = []
         self.outside = []
@@ -95,6 +96,9 @@ class Report:
     # ------------------------------------------------------------------
     def finish(self, known_findings):
         """prints VIOLATION / KNOWN-FINDING lines, writes the evidence file, returns the exit code"""
+        if self.unreproduced:
+            self.inconclusive.append("%d solver model(s) did not reproduce on the real code (encoding or stub mismatch; see evidence.unreproduced_models), first: %s" % (
+                len(self.unreproduced), json.dumps(self.unreproduced[0], default=str)[:400]))
         unknown_viol = []
         for v in self.violations:
             kf = next((k for k in known_findings if k.get("property") == self.prop and k.get("status") == "known"
@@ -143,6 +147,7 @@ class Report:
             "notes": self.notes,
             "inductive": self.inductive,
             "idealisation_artefacts": self.artefacts[:5],
+            "unreproduced_models": self.unreproduced[:5],
             "harness_errors": self.harness_errors[:5],
             "inconclusive": self.inconclusive[:10],
             "known_findings_matched": [v["key"] for v in self.known],
